@@ -239,10 +239,10 @@ class WSStream:
 
             if not valid_server_name(self.config, event):
                 await self._send_error_response(404)
-                self.closed = True
+                await self._close_after_error()
             elif not self.handshake.is_valid():
                 await self._send_error_response(400)
-                self.closed = True
+                await self._close_after_error()
             else:
                 self.app_put = await self.task_group.spawn_app(
                     self.app, self.config, self.scope, self.app_send
@@ -251,7 +251,7 @@ class WSStream:
         elif isinstance(event, (Body, Data)) and not self.handshake.accepted:
             if self.state == ASGIWebsocketState.HANDSHAKE:
                 await self._send_error_response(400)
-                self.closed = True
+                await self._close_after_error()
             # Otherwise a HTTP response (the rejection of the
             # handshake) has been started or sent, it must not be
             # followed by a second response. The data is ignored.
@@ -343,6 +343,13 @@ class WSStream:
                     self.client_close_code = int(event.code)
                     await self._send_wsproto_event(event.response())
                 await self.send(StreamClosed(stream_id=self.stream_id))
+
+    async def _close_after_error(self) -> None:
+        self.closed = True
+        # Nothing more will happen on this stream, the protocol must
+        # be told (as after any other response) so that it closes or
+        # idles the connection.
+        self.task_group.spawn(self.send, StreamClosed(stream_id=self.stream_id))
 
     async def _send_error_response(self, status_code: int) -> None:
         await self.send(
